@@ -8,8 +8,15 @@
 //! trusted: R15: claim_payment_internal: the unit extracts the amount re-check (the loop over the parts and the two abort tests, conditions captured) verbatim as a function of the part list; begin_claiming_payment before it and the per-channel claims after it are dropped and not claimed; R6: `for htlc in sources.iter()` becomes an index loop
 //! trusted: R15 (deep slice): ClaimablePayments::begin_claiming_payment: the custom-TLV refusal test verbatim (the `.iter().any(|(typ, _)| P)` becomes an index loop carrying P, R6)
 //! assume: representation invariant of an accumulating payment: the intended sum already held is < MAX_VALUE_MSAT, every part's intended value < MAX_VALUE_MSAT, the sum of received values fits u64; timer_ticks < 255; cltv_expiry >= HTLC_FAIL_BACK_BUFFER (implied by acceptance)
+//! trusted: assume_specification for core::cmp::max / core::cmp::min (std definitions): present in every unit so that a change that introduces them is verified instead of being rejected by the tool
 use vstd::prelude::*;
 verus! {
+use vstd::std_specs::cmp::*;
+use core::cmp;
+pub assume_specification<T: core::cmp::Ord>[core::cmp::max::<T>](a: T, b: T) -> (r: T)
+    ensures T::obeys_cmp_spec() ==> r == (if b.cmp_spec(&a) == core::cmp::Ordering::Less { a } else { b });
+pub assume_specification<T: core::cmp::Ord>[core::cmp::min::<T>](a: T, b: T) -> (r: T)
+    ensures T::obeys_cmp_spec() ==> r == (if b.cmp_spec(&a) == core::cmp::Ordering::Less { b } else { a });
 //@const lightning/src/ln/msgs.rs MAX_VALUE_MSAT
 //@const lightning/src/ln/channelmanager.rs MPP_TIMEOUT_TICKS
 //@const lightning/src/chain/channelmonitor.rs MAX_BLOCKS_FOR_CONF CLTV_CLAIM_BUFFER LATENCY_GRACE_PERIOD_BLOCKS HTLC_FAIL_BACK_BUFFER
